@@ -41,7 +41,8 @@ def pool(chk, mdl):
     return out
 
 def run(chk):
-    proofs = lib.check_proofs(PID)
+    extra = tuple(x for x in ("C08text", "C08rel") if os.path.exists(os.path.join(lib.COQ, "Props", x + ".v")))
+    proofs = lib.check_proofs(PID, extra_props=extra)
     exes = lib.build_impl(); mdl = lib.build_model()
     fnd = lib.Findings(PID)
     texts = pool(chk, mdl)
